@@ -93,7 +93,7 @@ def det_next(time: int, kidx: int, prev: int) -> int:
 
 class ProbeKernel(ModelMixin, TransitionMixin, TuningMixin):
     error_book = {0: "no errors", 1: "probe error one", 2: "probe error two",
-                  3: "probe error three"}
+                  3: "probe error three", -1: "probe: transition skipped"}
     needs_history = False
     identifier = ""
 
@@ -226,7 +226,8 @@ class ProbeKernelB(ProbeKernel):
     """Same behaviour, different class and different documented messages (so that a message taken
     from another kernel's error book is visible)."""
 
-    error_book = {0: "no errors", 1: "B: first problem", 2: "B: second problem", 3: "B: third problem"}
+    error_book = {0: "no errors", 1: "B: first problem", 2: "B: second problem", 3: "B: third problem",
+                  -1: "B: skipped"}
 
 
 def decode_log(ilog: np.ndarray, seq: int) -> list[dict]:
